@@ -274,6 +274,7 @@ var c21LiteCaps = []int{2000}
 
 // checkAll classifies pkt once and runs it against every capacity of the list plus the exact boundary need-1 / need.
 func (w *c21Worker) checkAll(pkt []byte, caps []int) {
+	pkt = pkt[:len(pkt):len(pkt)] // cap == len: a slice expression reaching past the packet panics
 	in := c21Classify(pkt)
 	w.fam[w.famCur]++
 	for _, cp := range caps {
@@ -789,6 +790,30 @@ func TestVerifC21(t *testing.T) {
 				full := c21BuildV4(ihl, ff, 17, c21UDP(1, 2, 4))
 				for l := 0; l < max(ihl*4, 20); l++ {
 					w.checkAll(c21FixV4(append([]byte{}, full[:l]...)), c21BaseCaps)
+				}
+			}
+		}})
+	}
+	// every value of the IPv4 flags/fragment-offset field and of the IPv6 fragment header's offset/flags field
+	for hi := 0; hi < 256; hi++ {
+		jobs = append(jobs, c21Job{"fragment-field-sweep", func(w *c21Worker) {
+			for lo := 0; lo < 256; lo++ {
+				ff := uint16(hi)<<8 | uint16(lo)
+				for _, l4 := range []struct {
+					proto uint8
+					body  []byte
+				}{{6, c21TCP(7, 8, 9, 10, 5, 0x02, 4)}, {17, c21UDP(7, 8, 4)}, {1, c21ICMP(8, 0, 4)}} {
+					w.checkAll(c21BuildV4(5, ff, l4.proto, l4.body), c21LiteCaps)
+					nh := l4.proto
+					if nh == 1 {
+						nh = 58
+						l4.body = c21ICMP(128, 0, 4)
+					}
+					for _, ch := range [][]uint8{{3}, {2, 3}} {
+						p := c21BuildV6(ch, 0, nh, l4.body)
+						binary.BigEndian.PutUint16(p[40+8*(len(ch)-1)+2:], ff)
+						w.checkAll(p, c21LiteCaps)
+					}
 				}
 			}
 		}})
